@@ -215,7 +215,38 @@ def strategy_spawn(draw, tier):
     return case
 
 
+def enum_huge(tier, shard, nshards):
+    if shard == 0:
+        yield {'shape': [3, 3, 2 ** 20], 'n_jobs': 4}          # 72 MB of float64 in one call
+
+
+def check_huge(case, rec):
+    """one call on more than 64 MiB with a per-signal option grid and fewer workers than signals (bounded submission windows
+    must hand the results back in submission order)"""
+    n0, n1, n = case['shape']
+    fs, fr = 500, (3.0, 5.0)
+    t = np.arange(n) / fs
+    X = np.array([[np.sin(2 * np.pi * (3.5 + 0.1 * (i * n1 + j)) * t) * (1 + 0.6 * np.sin(2 * np.pi * (0.031 + 0.007 * j) * t + i)) + 0.2 * np.sin(2 * np.pi * 17.3 * t + i + j)
+                   for j in range(n1)] for i in range(n0)])
+    opts = [[{'center_extrema': ['peak', 'trough'][(i + j) % 2], 'threshold_kwargs': {'amp_fraction_threshold': 0.05 * (i * n1 + j), 'amp_consistency_threshold': 0.3 + 0.05 * j,
+              'period_consistency_threshold': 0.5, 'monotonicity_threshold': 0.6, 'min_n_cycles': 1 + (i + j) % 3}} for j in range(n1)] for i in range(n0)]
+    with warnings.catch_warnings():
+        warnings.simplefilter('ignore')
+        out = with_timeout(lambda: guarded(compute_features_3d, X, fs, fr, compute_features_kwargs=gen.copy_json(opts), axis=(0, 1), n_jobs=case['n_jobs']), 1500)
+        if not isinstance(out, list) or len(out) != n0 or any(len(r) != n1 for r in out):
+            raise Violation('result-layout', 'huge array: outer %s' % (len(out) if isinstance(out, list) else type(out).__name__))
+        for i in range(n0):
+            for j in range(n1):
+                want = gc.isolated(gc.reference, X[i, j], fs, fr, gen.copy_json(opts[i][j]), return_samples=True)
+                ok, why = ref.frames_equal(out[i][j].reset_index(drop=True), want.reset_index(drop=True))
+                if not ok:
+                    raise Violation('position-result-differs', 'huge array (%s float64, n_jobs=%d): position [%d][%d]: %s' % (case['shape'], case['n_jobs'], i, j, why))
+    rec.label('huge-array:%dMB' % (X.nbytes // 2 ** 20))
+    rec.nontrivial(True)
+
+
 PARTS = [Part('group-3d', check, strategy=strategy, budget={'quick': 320, 'thorough': 6000}, shards={'quick': 16, 'thorough': 16},
               time_cap={'quick': 200, 'thorough': 3000}),
+         Part('huge-array', check_huge, enum=enum_huge, shards={'quick': 1, 'thorough': 1}, exhaustive=True, time_cap={'quick': 600, 'thorough': 2400}),
          Part('spawned-workers', check, strategy=strategy_spawn, budget={'quick': 24, 'thorough': 400}, shards={'quick': 8, 'thorough': 16},
               time_cap={'quick': 200, 'thorough': 2400})]
